@@ -665,6 +665,15 @@ fn spawn_async_ao_list_in_task'''),
         ('descriptor-search-starts-at-62', 'brush-core/src/interp.rs', "    let mut candidate_fd_num = 63;", "    let mut candidate_fd_num = 62;"),
         ('descriptor-search-may-return-zero', 'brush-core/src/interp.rs', "        if candidate_fd_num == 0 {\n            return error::unimp(\"no available file descriptors\");\n        }\n    }\n\n    Ok((candidate_fd_num, target_file))", "        if candidate_fd_num < 0 {\n            return error::unimp(\"no available file descriptors\");\n        }\n    }\n\n    Ok((candidate_fd_num, target_file))"),
     ],
+    'U79': [
+        ('first-character-replaced-through-one-byte', 'brush-core/src/variables.rs', "s.replace_range(0..c.len_utf8(), &c.to_uppercase().to_string());", "s.replace_range(0..1, &c.to_uppercase().to_string());"),
+    ],
+    'U78': [
+        ('slash-always-added-to-the-prefix', 'brush-core/src/patterns.rs', "            if !working_dir_str.ends_with('/') {\n                working_dir_str.push('/');\n            }", "            working_dir_str.push('/');"),
+    ],
+    'U77': [
+        ('star-slices-without-dollar-zero', 'brush-core/src/expansion.rs', "                            concatenate: _\n                        },\n                    )\n                ) {\n                    let shell_name", "                            concatenate: false\n                        },\n                    )\n                ) {\n                    let shell_name"),
+    ],
     'U76': [
         ('declared-without-a-value-reads-as-zero-under-nounset', 'brush-core/src/arithmetic.rs', "    if let Some(value) = value\n        && value.is_set()\n    {", "    if let Some(value) = value {"),
         ('unset-name-in-arithmetic-never-an-error', 'brush-core/src/arithmetic.rs', "    if shell.options().treat_unset_variables_as_error {\n        return Err(EvalError::ExpandingUnsetVariable(name.into()));\n    }\n\n    Ok(\"\".into())", "    Ok(\"\".into())"),
